@@ -51,7 +51,5 @@ def _cancel_eof(o):
 
 FINDING_CLASSES = {
     "F5c": _some_abandon,
-    "F13c": _file_data_packet,
-    "F13b": _eof_packet,
     "F16": _cancel_eof,
 }
